@@ -264,9 +264,47 @@ class Fn:
         return "Fn(%s @ %s)" % (self.qual, self.where())
 
 
+def desugar_let_else(n, top=False):
+    """In place: `let P = E else { D }; rest..` becomes the tail expression `if let P = E { rest.. } else { D }` of its block, so that every rule reads
+    the let-else form (absent from the pinned tree, common in tidy-up refactorings) like the if-let it abbreviates.  In the top-level block of a function or
+    closure body a diverging `else { ..; return x; }` is the value x of the body (`top`)."""
+    if isinstance(n, list):
+        for x in n:
+            desugar_let_else(x)
+        return
+    if not isinstance(n, dict):
+        return
+    k = n.get("k")
+    if k == "block" and isinstance(n.get("stmts"), list):
+        st = n["stmts"]
+        for i, x in enumerate(st):
+            if isinstance(x, dict) and x.get("k") == "let" and x.get("else") is not None and x.get("init") is not None:
+                rest = {"k": "block", "l": x.get("l", 0), "stmts": st[i + 1 :]}
+                els = x["else"]
+                if top and isinstance(els, dict) and els.get("k") == "block" and els.get("stmts"):
+                    last = els["stmts"][-1]
+                    if last.get("k") == "expr" and isinstance(last.get("e"), dict) and last["e"].get("k") == "return" and last["e"].get("e") is not None:
+                        els = dict(els, stmts=els["stmts"][:-1] + [{"k": "expr", "l": last.get("l", 0), "e": last["e"]["e"], "semi": False}])
+                new = {"k": "if", "l": x.get("l", 0), "cond": {"k": "letcond", "l": x.get("l", 0), "pat": x["pat"], "e": x["init"]}, "then": rest, "else": els}
+                n["stmts"] = st[:i] + [{"k": "expr", "l": x.get("l", 0), "e": new, "semi": False}]
+                desugar_let_else(x["init"])
+                desugar_let_else(rest, top)
+                desugar_let_else(els)
+                for y in n["stmts"][:i]:
+                    desugar_let_else(y)
+                return
+    for key, v in n.items():
+        if isinstance(v, (dict, list)):
+            desugar_let_else(v, top=(k in ("fn", "closure") and key == "body"))
+
+
 class Src:
     def __init__(self, doc):
         self.doc = doc
+        if not doc.get("_let_else_desugared"):
+            for f in doc["files"]:
+                desugar_let_else(f["items"])
+            doc["_let_else_desugared"] = True
         self.files = {f["file"]: f for f in doc["files"]}
         self.fns = []
         self.impls = []  # (file, module, impl node)
@@ -494,6 +532,19 @@ def msg_sig(msg):
     import hashlib
     import re
 
+    def canon_span(m):
+        # inside a quoted closure, parameter names are canonical: renaming `|x, y|` to `|num, den|` leaves the finding the same
+        t = m.group(0)
+        pm = re.search(r"\|([^|]*)\|", t)
+        if pm:
+            names = [n.strip().lstrip("&").split(":")[0].strip() for n in pm.group(1).split(",") if re.match(r"^\s*&?\s*(mut\s+)?[A-Za-z_][A-Za-z_0-9]*\s*(:.*)?$", n)]
+            for i, n in enumerate(names):
+                n = n.replace("mut ", "").strip()
+                if n and n != "_":
+                    t = re.sub(r"(?<![A-Za-z_0-9.])%s(?![A-Za-z_0-9])" % re.escape(n), "p%d_" % i, t)
+        return t
+
+    msg = re.sub(r"`[^`]*`", canon_span, msg)
     return hashlib.sha1(re.sub(r"\d+", "#", msg).encode()).hexdigest()[:12]
 
 
